@@ -288,7 +288,8 @@ static void case_ls(vh::Ctx & c, vh::Rng & r, bool is_float)
       for (int j = 0; j < m; ++j) {(*kJ)(i, j) = (S)J(i, j); Jr(i, j) = (LD)(*kJ)(i, j);}
       (*kY)(i) = (S)r.normal();
     }
-    for (int i = n; i < ls.getJ().rows(); ++i) {for (int j = 0; j < m; ++j) {ls.getJ()(i, j) = (S)1e30;} ls.getY()(i) = (S)1e30; ls.getW()(i) = (S)1e30;}
+    // (poison through the references in hand: a non-const getJ() call is itself an API event)
+    for (int i = n; i < kJ->rows(); ++i) {for (int j = 0; j < m; ++j) {(*kJ)(i, j) = (S)1e30;} (*kY)(i) = (S)1e30; (*kW)(i) = (S)1e30;}
     VecL a(m);
     typename romea::core::LeastSquares<S>::Matrix Ad = romea::core::LeastSquares<S>::Matrix::Zero(m, m);
     bool identity = r.coin(0.25);
